@@ -116,7 +116,7 @@ func (s *sys) bootCore() *coreInst {
 		if fh, err := os.OpenFile(f, os.O_CREATE|os.O_WRONLY|os.O_APPEND, 0o644); err == nil {
 			logrus.SetOutput(fh)
 			logrus.SetLevel(logrus.DebugLevel)
-			logrus.SetFormatter(&logrus.TextFormatter{DisableTimestamp: true, DisableColors: true})
+			logrus.SetFormatter(&logrus.TextFormatter{FullTimestamp: true, TimestampFormat: "05.000", DisableColors: true})
 		}
 	}
 	logrus.StandardLogger().ExitFunc = func(code int) {
